@@ -1,4 +1,5 @@
 import SR.Proofs.SemSC
+import SR.Proofs.SemBrute
 import SR.Proofs.SemObjects
 /-!
 # C14 — the sequential-consistency tester decides sequential consistency exactly
@@ -109,6 +110,12 @@ theorem C14_value_semantics (es es' : List (Event Op Ret)) :
   constructor
   · simp [SCTester.record, List.foldl_append]
   · simp [Tester.record, List.foldl_append]
+
+/-- the run-time oracle's definition check decides `IsSerializationOf false` (= the witness form of `IsSeqCons`) -/
+theorem C14_oracle_decides [DecidableEq Op] [DecidableEq Ret] (es : List (Event Op Ret)) (ids : List OpId)
+    (l : List (Op × Ret)) :
+    checkSer false spec s0 es ids l = true ↔ IsSerializationOf false spec s0 es ids l :=
+  checkSer_iff false spec s0 es ids l
 
 /-! ## non-vacuity -/
 section examples
